@@ -413,7 +413,7 @@ func standinTriePrefixPair(c, a, b uint32, id1, id2 string) bool {
 func pre_any() bool { return true }
 
 // share-group selection (a sync.Pool of scratch state, a random pick) is kept outside this contract
-//@ assume (*Trie).randomByGroup iface
+//@ assume (*Trie).randomByGroup iface for=Lookup
 
 // @ verify (*Trie).Lookup pre=pre_Trie_Lookup props=C09
 func pre_Trie_Lookup(t *Trie, ssid Ssid) bool {
@@ -499,4 +499,28 @@ func post_Message_Expires(m *Message, res0 time.Time) bool {
 		vs.TraceArg[int64](u, 0) == m.ID.Time() && vs.TraceArg[int64](u, 1) == 0 &&
 		vs.TraceArg[time.Time](a, 0) == vs.TraceRet[time.Time](u, 0) &&
 		vs.TraceArg[time.Duration](a, 1) == time.Duration(m.TTL)*time.Second && res0 == vs.TraceRet[time.Time](a, 0)
+}
+
+// ---------------------------------------------------------------------------------------------------------
+// Share groups (C01: "plus exactly one member of every share group that has a matching member") are NOT decided:
+// two bounded stand-ins on the real Subscribe / Lookup / randomByGroup / Random (two members of one group; one
+// subscriber in a group and subscribed directly) were built and hold on 20 000 concrete random inputs, but their
+// final obligation does not discharge (range exhaustion over the scratch map + cardinality: z3 answers sat on a
+// model that no execution reproduces, the other solvers time out) - under the rule "claim only what discharges
+// stably" they are left out. What is proved of that path: Reset empties the scratch set, whatever it held.
+
+// Reset empties the set, whatever it held (unbounded: every key the range has visited is gone)
+// @ verify (*Subscribers).Reset pre=pre_Subscribers_Reset post=post_Subscribers_Reset props=C01
+// @ loop (*Subscribers).Reset 0 inv inv_Subscribers_Reset modifies=* for=Reset
+func pre_Subscribers_Reset(s *Subscribers) bool { return s != nil && *s != nil }
+func inv_Subscribers_Reset(s *Subscribers) bool {
+	if s == nil {
+		return false
+	}
+	m := *s
+	return m != nil && vs.ForallKey(m, func(k uint32) bool { return !vs.Ranged(m, k) || !vs.Has(m, k) })
+}
+func post_Subscribers_Reset(s *Subscribers) bool {
+	m := *s
+	return vs.ForallKey(m, func(k uint32) bool { return !vs.Has(m, k) })
 }
